@@ -63,13 +63,22 @@ Record st := mk {
   log : list ev             (* newest first *)
 }.
 
+(** what the application of a stream does *)
+Inductive application :=
+| Static (chunks : list Z)          (* writes every chunk and finishes while the request is rendered *)
+| Manual (chunks : list Z)          (* writes / finishes when the history says so *)
+| Producer (chunk : Z) (n : nat)    (* push producer registered and started while the request is rendered *)
+| PreProducer (pre chunk : Z) (n : nat).
+      (* writes [pre] bytes directly, THEN registers a push producer for the rest and starts it *)
+
 Inductive op :=
 | Adv                       (* the reactor runs the pending _sendPrioritisedData call *)
 | WU (target : nat) (inc : Z)   (* WINDOW_UPDATE; target 0 = connection *)
 | SetIW (v : Z)             (* SETTINGS_INITIAL_WINDOW_SIZE := v *)
 | SetMF (v : Z)             (* SETTINGS_MAX_FRAME_SIZE := v *)
 | AppWrite (i : nat)        (* the application of manual stream i writes its next chunk *)
-| AppFinish (i : nat).      (* the application of manual stream i calls request.finish() *)
+| AppFinish (i : nat)       (* the application of manual stream i calls request.finish() *)
+| Req (i : nat) (a : application).   (* the request for stream i arrives now (not before the loop first ran) *)
 
 Definition set_streams (l : list stream) (s : st) : st := mk l (cwin s) (maxf s) (iw s) (last s) (scheduled s) (log s).
 Definition emit (e : ev) (s : st) : st := mk (streams s) (cwin s) (maxf s) (iw s) (last s) (scheduled s) (e :: log s).
@@ -122,12 +131,12 @@ Definition resched (i : nat) (s : st) : st := mk (streams s) (cwin s) (maxf s) (
 (** one iteration of _sendPrioritisedData serving stream i *)
 Definition adv_on (i : nat) (s : st) : st :=
   match find_stream i (streams s) with
-  | None => s
+  | None => resched i s                                     (* unreachable: the tree only knows open streams *)
   | Some x =>
       if Z.ltb (locwin (cwin s) x) 0 then resched i s     (* negative window: wait (fix 1323982) *)
       else
       match q x with
-      | [] => s                                             (* unreachable: an unblocked stream has a queue *)
+      | [] => resched i s                                   (* unreachable: an unblocked stream has a queue *)
       | None :: _ =>
           (* end_stream + _requestDone *)
           resched i (emit (EEnd i (sent x) (body x)) (set_streams (remove_stream i (streams s)) s))
@@ -257,6 +266,46 @@ Definition unblock_if_queued (i : nat) (s : st) : st :=
 Definition conn_window_updated (s : st) : st :=
   fold_left (fun acc i => unblock_if_queued i (window_updated i acc)) (map sid (streams s)) s.
 
+(** the request for stream i arrives: inserted and blocked in the priority tree, then rendered *)
+Definition new_stream (i : nat) (w : Z) (a : application) : stream :=
+  match a with
+  | Static cs => mkS i [] w true 0 0 false false false O 0 cs
+  | Manual cs => mkS i [] w true 0 0 false false false O 0 cs
+  | Producer c n => mkS i [] w true 0 0 false true true n c []
+  | PreProducer _ c n => mkS i [] w true 0 0 false false false n c []
+  end.
+
+Definition app_write (i : nat) (s : st) : st :=
+  match find_stream i (streams s) with
+  | Some x => match mleft x with
+              | [] => s
+              | n :: r => if finished x then s else write_to i n (upd i (set_mleft r) s)
+              end
+  | None => s
+  end.
+
+Definition app_finish (i : nat) (s : st) : st :=
+  match find_stream i (streams s) with
+  | Some x => if hasprod x then s else end_req i s
+  | None => s
+  end.
+
+Definition render (i : nat) (a : application) (s : st) : st :=
+  match a with
+  | Static cs => app_finish i (fold_left (fun acc _ => app_write i acc) cs s)
+  | Manual _ => s
+  | Producer _ _ => prod_run i s
+  | PreProducer pre _ _ =>
+      (* request.write(preamble); request.registerProducer(p, True); p starts producing *)
+      let s1 := if Z.ltb 0 pre then write_to i pre s else s in
+      prod_run i (upd i (fun y => set_producing true (set_hasprod true y)) s1)
+  end.
+
+Definition request (i : nat) (a : application) (s : st) : st :=
+  render i a (set_streams (streams s ++ [new_stream i (iw s) a]) s).
+
+
+
 Definition step (s : st) (o : op) : st :=
   match o with
   | Adv => if scheduled s then run_iter s else s
@@ -273,48 +322,18 @@ Definition step (s : st) (o : op) : st :=
               (mk (map (fun y => set_swin (swin y + (v - iw s)) y) (streams s))
                   (cwin s) (maxf s) v (last s) (scheduled s) (log s)))
   | SetMF v => mk (streams s) (cwin s) v (iw s) (last s) (scheduled s) (log s)
-  | AppWrite i =>
-      match find_stream i (streams s) with
-      | Some x => match mleft x with
-                  | [] => s
-                  | n :: r => if finished x then s else write_to i n (upd i (set_mleft r) s)
-                  end
-      | None => s
-      end
-  | AppFinish i =>
-      match find_stream i (streams s) with
-      | Some x => if hasprod x then s else end_req i s
-      | None => s
-      end
+  | AppWrite i => app_write i s
+  | AppFinish i => app_finish i s
+  | Req i a => request i a s
   end.
 
-(** what the application of a stream does *)
-Inductive application :=
-| Static (chunks : list Z)          (* writes every chunk and finishes while the request is rendered *)
-| Manual (chunks : list Z)          (* writes / finishes when the history says so *)
-| Producer (chunk : Z) (n : nat).   (* push producer registered and started while the request is rendered *)
-
-(** the request for stream i arrives: inserted and blocked in the priority tree, then rendered *)
-Definition new_stream (i : nat) (w : Z) (a : application) : stream :=
-  match a with
-  | Static cs => mkS i [] w true 0 0 false false false O 0 cs
-  | Manual cs => mkS i [] w true 0 0 false false false O 0 cs
-  | Producer c n => mkS i [] w true 0 0 false true true n c []
-  end.
-
-Definition render (i : nat) (a : application) (s : st) : st :=
-  match a with
-  | Static cs => step (fold_left (fun acc _ => step acc (AppWrite i)) cs s) (AppFinish i)
-  | Manual _ => s
-  | Producer _ _ => prod_run i s
-  end.
 
 Fixpoint setup (k : nat) (apps : list application) (s : st) : st :=
   match apps with
   | [] => s
   | a :: r =>
       let i := (2 * k + 1)%nat in
-      setup (S k) r (render i a (set_streams (streams s ++ [new_stream i (iw s) a]) s))
+      setup (S k) r (request i a s)
   end.
 
 Definition init (w : Z) (apps : list application) : st := setup 0 apps (mk [] 65535 16384 w None true []).
